@@ -371,7 +371,7 @@ def check_c15(res, ctx):
             rule="all pairs of byte strings over {00,01,7f,80,ff} up to the length bound (exhaustive) + random long strings; create/copy of every string",
             nontrivial=lambda l: l.split()[1] != l.split()[-1])
     ol = []
-    for _ in range(3000 if ctx.tier == "quick" else 30000):
+    for _ in range(3000 if ctx.tier == "quick" else 150000):
         a = gen.robj(r, n=r.choice([0, 1, 2, 3, 5, 9]), runs=False)
         k = r.random()
         b = ref.Obj(a.tid, list(a.elems))
@@ -448,7 +448,7 @@ def check_c19(res, ctx):
             lines.append("i2u %02x%02x" % (a, b))
     # round trip through the real code: latin1 -> utf8 -> latin1
     special = [0xC0, 0xC2, 0xC3, 0xDE, 0xDF, 0xE0, 0xEF, 0xF0, 0xF4, 0xFF, 0x80, 0xBF, 0x41, 0x7F, 0x1A]
-    for _ in range(4000 if ctx.tier == "quick" else 60000):
+    for _ in range(4000 if ctx.tier == "quick" else 200000):
         n = r.randrange(0, 12)
         b = bytearray(r.choice(special) if r.random() < 0.6 else r.randrange(1, 256) for _ in range(n))
         lines.append("u2i " + core.hexs(bytes(b)))
@@ -457,7 +457,7 @@ def check_c19(res, ctx):
         u = "".join(chr(r.choice([0x41, 0x7F, 0x80, 0xA0, 0xFF, 0x100, 0x7FF, 0x800, 0xFFFF, 0x10000, r.randrange(1, 0x300)])) for _ in range(r.randrange(1, 6)))
         lines.append("u2i " + u.encode("utf-8").hex())
     # longer, mostly-ASCII strings with a few special bytes (block-wise fast paths, boundaries)
-    for _ in range(3000 if ctx.tier == "quick" else 40000):
+    for _ in range(3000 if ctx.tier == "quick" else 150000):
         n = r.choice([7, 8, 9, 15, 16, 17, 24, 33, 64])
         b = bytearray(r.choice(b"abcxyz019 \x01\x7f") for _ in range(n))
         for _ in range(r.choice([1, 1, 2, 3])):
@@ -634,7 +634,7 @@ def oracle_c02(line, h):
 def check_c02(res, ctx):
     r = ctx.rng
     lines = []
-    nq = 2500 if ctx.tier == "quick" else 30000
+    nq = 2500 if ctx.tier == "quick" else 120000
     for _ in range(nq):
         o = gen.robj(r, big=r.random() < 0.03)
         enc = r.choice([0, 1, 2, 2, 3] if not ref.is_arr(o.tid) else [0, 1, 2, 2, 3])
@@ -668,7 +668,7 @@ def check_c02(res, ctx):
 def check_c10(res, ctx):
     r = ctx.rng
     lines = []
-    nq = 1500 if ctx.tier == "quick" else 20000
+    nq = 1500 if ctx.tier == "quick" else 80000
     for i in range(nq):
         lines.append(gen.rhistory(r, r.choice([5, 10, 30, 80, 200]) if i % 7 else 200, small=(i % 3 == 0)))
     if ctx.tier != "quick":
@@ -709,7 +709,7 @@ def rcs_line(r, nadds):
 
 def check_c11(res, ctx):
     r = ctx.rng
-    lines = [rcs_line(r, r.choice([0, 1, 2, 3, 5, 8, 12, 20, 40])) for _ in range(800 if ctx.tier == "quick" else 8000)]
+    lines = [rcs_line(r, r.choice([0, 1, 2, 3, 5, 8, 12, 20, 40])) for _ in range(800 if ctx.tier == "quick" else 40000)]
     lines += [rcs_line(r, 300) for _ in range(3 if ctx.tier == "quick" else 30)]
     compare(res, ctx, lines, "c11 column-slice histories",
             oracle=lambda l, h: ("leak: " + h[-20:]) if not h.endswith("live=0") else None,
@@ -899,7 +899,7 @@ def check_c17(res, ctx):
 
 
 def check_c08(res, ctx):
-    n = 700 if ctx.tier == "quick" else 10000
+    n = 700 if ctx.tier == "quick" else 40000
     tl = table_lines(ctx, n, kind="rtw", incons=0.0)
     lines = [l for _, l in tl]
 
@@ -1423,7 +1423,7 @@ def check_c05(res, ctx):
 
 def check_c12(res, ctx):
     r = ctx.rng
-    n = 500 if ctx.tier == "quick" else 6000
+    n = 500 if ctx.tier == "quick" else 40000
     lines = []
     for i in range(n):
         k = i % 5
@@ -1456,7 +1456,7 @@ def check_c12(res, ctx):
 def check_c14(res, ctx):
     r = ctx.rng
     scen = []
-    nsc = 40 if ctx.tier == "quick" else 300
+    nsc = 40 if ctx.tier == "quick" else 2000
     mdops = {}
     for i in range(nsc):
         k = i % 5
